@@ -14,19 +14,21 @@ from vlib import Infra
 LEVEL = "model_checking"
 
 
-def run(ck):
-    q = ck.quick()
-    r = ck.tlc("registry", "Registry", "Reg3.cfg" if q else "Reg4.cfg", timeout=900, label="exhaustive histories")
+def registry_histories(ck, prop, q, kinds=None, edge_sample=2500):
+    """replays Registry.tla histories on the real registry; mismatches whose kind starts with one of `kinds`
+    (all when None) are reported for property `prop`"""
+    r = ck.tlc("registry", "Registry", "Reg3.cfg" if q else "Reg4.cfg", timeout=900, label="registry: exhaustive histories")
     ck.model(r)
     rows = r.printed("@H")
-    re_ = ck.tlc("registry", "Registry", "RegEdges.cfg", timeout=900, label="edge cover of the abstract state graph")
+    re_ = ck.tlc("registry", "Registry", "RegEdges.cfg", timeout=900, label="registry: edge cover of the abstract state graph")
     ck.model(re_)
     edges = re_.printed("@H")
+    total_edges = len(edges)
     rnd = random.Random(ck.seed)
     rnd.shuffle(edges)
     if q:
-        edges = edges[:2500]
-    rs = ck.tlc("registry", "Registry", "RegSim.cfg", simulate="num=%d" % (30 if q else 400), depth=16, timeout=900, label="simulated long histories")
+        edges = edges[:edge_sample]
+    rs = ck.tlc("registry", "Registry", "RegSim.cfg", simulate="num=%d" % (30 if q else 400), depth=16, timeout=900, label="registry: simulated long histories")
     sims = rs.printed("@H")
     if len(rows) < 50 or len(edges) < 500 or len(sims) < 5:
         raise Infra("generation produced %d/%d/%d histories" % (len(rows), len(edges), len(sims)))
@@ -37,13 +39,20 @@ def run(ck):
     if res["histories"] != len(allh):
         raise Infra("driver consumed %d of %d histories" % (res["histories"], len(allh)))
     ck.cov["traces_validated_against_impl"] += res["histories"]
-    ck.cov["edge_cover"] = {"edges_total": len(re_.printed("@H")), "replayed": len(edges)}
+    ck.cov["registry_edge_cover"] = {"edges_total": total_edges, "replayed": len(edges)}
     ck.count(res["steps"], ("h%d" % i for i in range(res["distinct"])))
     for m in res["mismatches"] or []:
-        key = "C05:%s:%s" % (m["kind"], m["hist"])
+        if kinds and not any(m["kind"].startswith(k) for k in kinds):
+            continue
+        key = "%s:%s:%s" % (prop, m["kind"], m["hist"])
         ck.violation(key, "after history [%s] step %d: %s: specification expects %s, code gives %s" % (m["hist"], m["step"], m["kind"], m["want"], m["got"]), m)
     h = sims[0]["hist"]
-    ck.sample({"history": [(o["op"], o["s"], o["k"], o["flag"]) for o in h], "expected_after_last": h[-1]["obs"]})
+    ck.sample({"registry_history": [(o["op"], o["s"], o["k"], o["flag"]) for o in h], "expected_after_last": h[-1]["obs"]})
+
+
+def run(ck):
+    q = ck.quick()
+    registry_histories(ck, "C05", q)
 
     # races -------------------------------------------------------------------------------
     neg = ck.tlc("registry", "RegistRace", "RaceAsFound.cfg", workers=1, must_pass=False, label="negative control: Load-then-Store Regist violates OneLive")
